@@ -252,6 +252,29 @@ PROPS = {
         assumptions=["optimize and pragma concern every JSX element and are never 'irrelevant'",
                      "the option JSON reaches the visitor through serde_json::from_str::<Options> like in plugin/src/lib.rs"],
     ),
+    "C16": dict(
+        mc=[dict(module="MC_C16")], judge="Judge_C16", want=["js"],
+        rule="5 prop maps (identifier / quoted-hyphenated keys, properties, methods, getters, optional flags, empty) x encodings "
+             "(inline literal, alias, alias chain, interface, every split into merged declarations / extends / intersection, "
+             "parentheses, indexed access through a literal and an interface, Partial, Required, Pick, Omit with literal / union / "
+             "aliased keys; thorough: each wrapped once more) x placement (before / after the call, exported, local scope, local "
+             "scope shadowing a same-named outer declaration); plus unresolvable types (imported, Readonly, primitive, array); "
+             "the mock defineComponent records the options Vue receives; non-trivial = declarations or an unresolvable type",
+        exhaustive=dict(quick=True, thorough=True),
+        assumptions=["one key with conflicting optionality across merged/intersected parts: either `required` value accepted",
+                     "a union as the props type is outside the domain"],
+    ),
+    "C17": dict(
+        mc=[dict(module="MC_C17")], judge="Judge_C17", want=["js"],
+        rule="33 atom types (keywords, literal types incl. template and bigint, function/constructor, array, tuple, object / "
+             "call-signature / mixed / empty type literals, built-in classes) and 3 interfaces, closed under alias, parentheses, "
+             "tuple/array/property/interface indexing, NonNullable, Partial, Readonly, Record, Uppercase, Parameters and unions "
+             "with string/boolean/null/any/number on either side (thorough: two levels), each as a required and as an optional "
+             "prop; the observed `type` option is compared with Types!Ctors",
+        exhaustive=dict(quick=True, thorough=True),
+        assumptions=["undefined/void/never are not in the atom table (the property does not list them)",
+                     "a prop option without any `type` never rejects and is accepted"],
+    ),
     "C02": dict(
         mc=[dict(module="MC_C02")], judge="Judge_C02", want=["js"],
         rule="TLC enumerates every JSX-text string over the symbol alphabet up to the length bound in every "
